@@ -659,9 +659,115 @@ func (s *Spec) EnumText() []string {
 	return out
 }
 
-const fixedDecls = `object Bar {
+// Root is the declaration under test as a whole: `object Foo` or `oneof Foo` with its own
+// annotations. nil / "" = absent.
+type Root struct {
+	Kind   string   // obj | oneof
+	Desc   *string  // description
+	Ent    *string  // entity.entity (objects only)
+	Part   *int     // entity.part (schema_j5pb.EntityPart number; nil = not written)
+	AnyM   []string // anyMember (objects only)
+	BarEnt *string  // entity name put on the fixed `object Bar` (part KEYS): a field called `keys` referring to Bar then triggers the reader's legacy PSM lookup
+}
+
+var partNames = []string{"UNSPECIFIED", "KEYS", "STATE", "EVENT", "DATA", "REFERENCES", "DERIVED"}
+
+func (r *Root) Encode() string {
+	part := "~"
+	if r.Part != nil {
+		part = strconv.Itoa(*r.Part)
+	}
+	return strings.Join([]string{"root=" + r.Kind, "desc=" + optS(r.Desc), "ent=" + optS(r.Ent), "part=" + part, "anym=" + listS(r.AnyM), "barent=" + optS(r.BarEnt)}, " ")
+}
+
+func DecodeRoot(seg string) (*Root, bool) {
+	r := &Root{Kind: "obj"}
+	if seg == "~" {
+		return r, true
+	}
+	if !strings.Contains(seg, "=") {
+		// old form: the bare object description
+		b, ok := vh.UnHex(seg)
+		if !ok {
+			return nil, false
+		}
+		s := string(b)
+		r.Desc = &s
+		return r, true
+	}
+	for _, t := range strings.Fields(seg) {
+		i := strings.IndexByte(t, '=')
+		if i < 0 {
+			return nil, false
+		}
+		k, v := t[:i], t[i+1:]
+		str := func() (*string, bool) {
+			if v == "~" {
+				return nil, true
+			}
+			b, ok := vh.UnHex(v)
+			if !ok {
+				return nil, false
+			}
+			s := string(b)
+			return &s, true
+		}
+		var ok bool
+		switch k {
+		case "root":
+			if v != "obj" && v != "oneof" {
+				return nil, false
+			}
+			r.Kind = v
+		case "desc":
+			if r.Desc, ok = str(); !ok {
+				return nil, false
+			}
+		case "ent":
+			if r.Ent, ok = str(); !ok {
+				return nil, false
+			}
+		case "barent":
+			if r.BarEnt, ok = str(); !ok {
+				return nil, false
+			}
+		case "part":
+			if v != "~" {
+				n, err := strconv.Atoi(v)
+				if err != nil || n < 0 || n >= len(partNames) {
+					return nil, false
+				}
+				r.Part = &n
+			}
+		case "anym":
+			if v != "~" {
+				for _, h := range strings.Split(v, ",") {
+					b, ok := vh.UnHex(h)
+					if !ok {
+						return nil, false
+					}
+					r.AnyM = append(r.AnyM, string(b))
+				}
+			}
+		default:
+			return nil, false
+		}
+	}
+	return r, true
+}
+
+// firstNumber: proto number of the first field under test (the object root has the helper field z = 1)
+func (r *Root) firstNumber() int {
+	if r.Kind == "oneof" {
+		return 1
+	}
+	return 2
+}
+
+const fixedBarHead = `object Bar {
   | the bar
-  field x string
+`
+const fixedDecls = `  field x string
 }
 
 oneof On {
@@ -672,21 +778,49 @@ oneof On {
 
 // FileText is the whole j5s file: object Foo with a leading required helper field `z` (keeps
 // the buf/validate and j5 ext imports in place independently of the field under test).
-func FileText(objDesc *string, specs []*Spec) string {
+func FileText(root *Root, specs []*Spec) string {
+	if root == nil {
+		root = &Root{Kind: "obj"}
+	}
 	var sb strings.Builder
-	sb.WriteString("package foo.v1\n\nobject Foo {\n")
-	if objDesc != nil {
-		for _, l := range strings.Split(*objDesc, "\n") {
+	sb.WriteString("package foo.v1\n\n")
+	if root.Kind == "oneof" {
+		// the helper field lives in an object of its own; the options of the oneof are the fields under test
+		sb.WriteString("object Helper {\n  field z ! string\n}\n\noneof Foo {\n")
+	} else {
+		sb.WriteString("object Foo {\n")
+	}
+	if root.Desc != nil {
+		for _, l := range strings.Split(*root.Desc, "\n") {
 			sb.WriteString("  | " + l + "\n")
 		}
 	}
-	sb.WriteString("  field z ! string\n")
+	if root.Kind != "oneof" {
+		if root.Ent != nil {
+			sb.WriteString("  entity.entity = " + j5sString(*root.Ent) + "\n")
+		}
+		if root.Part != nil {
+			sb.WriteString("  entity.part = " + j5sString(partNames[*root.Part]) + "\n")
+		}
+		if len(root.AnyM) > 0 {
+			sb.WriteString("  anyMember = " + j5sList(root.AnyM) + "\n")
+		}
+		sb.WriteString("  field z ! string\n")
+	}
 	for _, s := range specs {
-		for _, l := range s.FieldText() {
+		lines := s.FieldText()
+		if root.Kind == "oneof" {
+			lines[0] = strings.Replace(lines[0], "  field ", "  option ", 1)
+		}
+		for _, l := range lines {
 			sb.WriteString(l + "\n")
 		}
 	}
 	sb.WriteString("}\n\n")
+	sb.WriteString(fixedBarHead)
+	if root.BarEnt != nil {
+		sb.WriteString("  entity.entity = " + j5sString(*root.BarEnt) + "\n  entity.part = \"KEYS\"\n")
+	}
 	sb.WriteString(fixedDecls)
 	for _, s := range specs {
 		if et := s.EnumText(); et != nil {
